@@ -189,12 +189,13 @@ def r2(ctx):
                 ctx.check(not bad, "C05.R2", f"{cq.split('.')[-1]}.{name} handles output {s!r}", m.where,
                           ctx.construct(m, text=f"output {s!r}"),
                           f"output {s!r} is registered for this materializer but falls into `{stmt_text(bad[0], 90) if bad else ''}`")
-    prep = P.func(f"{MAT}._prepare_model_specs").locals_named("prepare_model_spec")
+    prep = shared.spec_binder(P)   # today: the nested prepare_model_spec
     try:
         pouts = sym.outcomes(prep.node)
     except sym.Unmodelled as e:
         raise AnalysisError(f"C05.R2: prepare_model_spec cannot be summarised: {e}")
-    A, B = "model_spec.output is None", "model_spec.output in self.REGISTER_OUTPUTS"
+    mp_ = [p_ for p_ in param_names(prep.node) if p_ not in ("self", "cls")][0]
+    A, B = f"{mp_}.output is None", f"{mp_}.output in self.REGISTER_OUTPUTS"
     dflt = sym.eval_under(pouts, {A: True}, kinds=("return", "fall"))
     bad_ = sym.eval_under(pouts, {A: False, B: False}, kinds=("return", "fall"))
     good = sym.eval_under(pouts, {A: False, B: True}, kinds=("return", "fall"))
